@@ -2,7 +2,7 @@
 CONSTANTS
   Names <- NamesFull
   Conns = 2
-  CatIds = {1, 2, 3, 4, 5, 6}
+  CatIds = {1, 2, 3, 4, 5, 6, 7}
   MaxMsgs = 4
   MaxUid = 6
   MaxCreates = 4
